@@ -95,7 +95,14 @@ Definition prop_step (q : ostate) (o : op) (n : sobs) : bool :=
   | CheckoutMove b =>
     Bool.eqb (b_other n) b
     && (if Bool.eqb b (b_other p) then same_roots p n
-        else tbl_kept 1 p n && tbl_kept 2 p n)               (* no uncommitted change of the source is lost *)
+        else tbl_kept 1 p n && tbl_kept 2 p n                (* no uncommitted change of the source is lost *)
+             && match q_away q with                          (* ... and none of the target branch *)
+                | Some (h, s, w) =>
+                  if negb (root_eqb s h) || negb (root_eqb w h)
+                  then root_eqb (b_working n) w && root_eqb (b_staged n) s
+                  else true
+                | None => true
+                end)
   | _ => true
   end.
 
